@@ -645,6 +645,19 @@ def gen_case(rng, length):
                 ops.append(rng.choice([f'setT {o} {rng.choice(TS)}', f'setP {o} {rng.choice(PS)}', f'nudge {o} T 1e-3', f'scale {o} 2',
                                        f'setflow {o} {rng.randrange(12)} {rng.choice([1, 4])}', f'thermo {o} 2']))
                 ops.append(f'readflow {o} {u}')
+            elif k < 0.7 and len(kinds) >= 2:
+                # the flow views are tied to the thermal-condition OBJECT they were built with: read, take over another
+                # stream's T and P object (link_with(TP=True) only), change T there, read again
+                cands = [i for i in range(len(kinds)) if i != o and (kinds[i] == 'multi') == (kinds[o] == 'multi')]
+                if cands:
+                    a = rng.choice(cands); u = rng.choice(['m3/hr', 'L/min'])
+                    rd = o
+                    if kinds[o] == 'multi' and len(kinds) < 7:
+                        # a phase view keeps its own flow views: it is the view that is read before and after
+                        ops.append(f'view {o} {rng.choice("lg")}'); kinds.append('view'); rd = len(kinds) - 1
+                    ops.append(f'readflow {rd} {u}'); ops.append(f'link {o} {a} 0 0 1')
+                    ops.append(rng.choice([f'setT {a} {rng.choice(TS)}', f'setP {a} {rng.choice(PS)}', f'setT {o} {rng.choice(TS)}']))
+                    ops.append(f'readflow {rd} {u}'); ops.append(f'readflow {a} {u}')
             elif kinds[o] == 'multi' and len(kinds) < 6:
                 # a phase view read before and after the parent changes package (same chemicals, other models)
                 ph = rng.choice('lg'); at = rng.choice(ATTRS_SINGLE)
@@ -719,10 +732,65 @@ def gen_case(rng, length):
     return Case(ops, {})
 
 
+def gen_scenario(rng):
+    """Directed histories for the memos that do not pass through `_get_property` (the flow views' molar volumes, tied to
+    a thermal-condition object) and for phase views across package / thermal-condition changes; a random tail follows."""
+    ops = []
+    fl = lambda: gen_flows(rng, 10).replace('0,', '1,', 1)
+    T0, P0 = rng.choice(TS), rng.choice(PS)
+    u = rng.choice(['m3/hr', 'm3/hr', 'L/min', 'kg/hr'])
+    k = rng.random()
+    change = lambda o: rng.choice([f'setT {o} {rng.choice(TS)}', f'setP {o} {rng.choice(PS)}', f'nudge {o} T 1e-3', f'scale {o} 2',
+                                   f'setflow {o} {rng.randrange(8)} {rng.choice([1, 4])}', f'thermo {o} 2'])
+    if k < 0.3:
+        # single-phase: write / read in volumetric units, change the state, read again
+        ops.append(f'new single {rng.choice([0, 0, 2, 3])} {T0} {P0} {rng.choice("lg")} {fl()}')
+        if rng.random() < 0.6: ops.append(f'setvol 0 {rng.choice(["Water", "Ethanol", "Methanol"])} {rng.choice([0.5, 1.0, 0.02])} 0')
+        ops += [f'readflow 0 {u}', change(0), f'readflow 0 {u}', 'read 0 F_vol', change(0), f'readflow 0 {u}']
+    elif k < 0.55:
+        # multi-phase stream and one of its phase views
+        ph = rng.choice(['lg', 'lg', 'lLg', 'ls'])
+        ops.append(f'new multi {rng.choice([0, 0, 2, 3])} {T0} {P0} {ph} {fl()}')
+        ops.append(f'view 0 {rng.choice(ph)}')
+        rd = rng.choice([0, 1])
+        if rng.random() < 0.5: ops.append(f'setvol 0 {rng.choice(["Water", "Ethanol"])} {rng.choice([0.5, 1.0])} {rng.randrange(3)}')
+        ops += [f'readflow {rd} {u}', change(0), f'readflow {rd} {u}', f'readflow {1 - rd} {u}']
+    elif k < 0.8:
+        # two streams of one class and phase set: one takes over the other's T and P OBJECT (link_with(TP=True) alone, or
+        # with the flows); the flow views of the stream and of its phase views must follow the new object
+        multi = rng.random() < 0.7
+        if multi:
+            ph = rng.choice(['lg', 'lg', 'lLg'])
+            ops.append(f'new multi 0 {T0} {P0} {ph} {fl()}'); ops.append(f'new multi 0 {rng.choice(TS)} {rng.choice(PS)} {ph} {fl()}')
+            ops.append(f'view 0 {rng.choice(ph)}'); rd = rng.choice([2, 2, 0])
+        else:
+            p1 = rng.choice('lg')
+            ops.append(f'new single 0 {T0} {P0} {p1} {fl()}'); ops.append(f'new single 0 {rng.choice(TS)} {rng.choice(PS)} {p1} {fl()}'); rd = 0
+        ops.append(f'readflow {rd} {u}')
+        ops.append(f'link 0 1 {rng.choice([0, 0, 1])} 0 1')
+        ops.append(rng.choice([f'setT 1 {rng.choice(TS)}', f'setP 1 {rng.choice(PS)}', f'setT 0 {rng.choice(TS)}']))
+        ops += [f'readflow {rd} {u}', f'readflow 1 {u}', 'read 0 F_vol']
+    else:
+        # a phase view read before and after its parent changes package (same chemicals, other models)
+        ph = rng.choice(['lg', 'lLg']); at = rng.choice(ATTRS_SINGLE)
+        ops.append(f'new multi 0 {T0} {P0} {ph} {fl()}'); ops.append(f'view 0 {rng.choice(ph)}')
+        ops += [f'read 1 {at}', f'readflow 1 {u}', f'thermo 0 {rng.choice([2, 3])}', f'read 1 {at}', f'readflow 1 {u}', f'read 0 {rng.choice(ATTRS_MULTI)}']
+    tail = gen_case(rng, rng.randrange(0, 8)).ops
+    # the tail's own `new` lines would renumber nothing (ids are positional), but keep only its non-creating ops on objects that exist
+    nobj = sum(1 for l in ops if l.split(' ')[0] in ('new', 'view'))
+    for l in tail:
+        t = l.split(' ')
+        if t[0] in ('new', 'copy', 'copythermo', 'fromdata', 'flowproxy', 'proxy', 'view'): continue
+        ids = [x for x in t[1:4] if x.isdigit()]
+        if t[0] in ('read', 'readflow', 'setT', 'setP', 'scale', 'nudge') and int(t[1]) < nobj: ops.append(l)
+    return Case(ops, {})
+
+
 def generate(rng, tier, index, nworkers):
     n = max(1, budget(tier)['cases'] // nworkers)
     for _ in range(n):
-        yield gen_case(rng, rng.randrange(6, 41))
+        if rng.random() < 0.15: yield gen_scenario(rng)
+        else: yield gen_case(rng, rng.randrange(6, 41))
 
 
 def corpus():
